@@ -1193,11 +1193,17 @@ package router
 
 // ---- server_http_gohttp.go (DoH): admission before anything else is done for the request ----------------------
 // getDnsKey: scans "k=v&k=v" for the value of "dns"; terminates on every query string.
+// getDnsKey: the value of a "dns" parameter of the query string - the text between a "dns=" that starts a parameter
+// (at the start of the string or right after an '&') and the next '&' or the end -, "" when there is none.
+//@ spec func dnsParamAt(q string, i int, n int) bool = 4 <= i && i + n <= len(q) && q[i-4] == 'd' && q[i-3] == 'n' && q[i-2] == 's' && q[i-1] == '='
+//@        && (i == 4 || q[i-5] == '&') && (i + n == len(q) || q[i+n] == '&') && forall(j, i, i + n, q[j] != '&')
 //@ func getDnsKey(query string) (v string)
-//@   props C01
+//@   props C01 C03
 //@   modifies nothing
+//@   ensures [C03:the-value-of-a-dns-parameter] len(v) > 0 ==> exists(i, 4, len(query0) + 1, sameSlice(v, query0, i, i + len(v)) && dnsParamAt(query0, i, len(v)))
 //@   loop 1:
 //@     modifies nothing
+//@     invariant [C03:rest-starts-a-parameter] len(query) <= len(query0) && (len(query) == 0 || (sameSlice(query, query0, len(query0) - len(query), len(query0)) && (len(query) == len(query0) || query0[len(query0) - len(query) - 1] == '&')))
 //@     decreases len(query)
 
 // readReqMsg: whatever the request carries - any method, headers, query string, base64 text or body - this
